@@ -99,7 +99,7 @@ table_json(const std::vector<Entry>& t, bool full)
     for (size_t i = 0; i < t.size(); ++i) {
         if (i)
             s += ",";
-        snprintf(b, sizeof(b), "{\"kind\":%d,\"name\":", (int)t[i].id.kind);
+        snprintf(b, sizeof(b), "{\"ok\":%d,\"kind\":%d,\"name\":", t[i].status == Device_Ok ? 1 : 0, (int)t[i].id.kind);
         s += b;
         s += bytes_json((const unsigned char*)t[i].id.name, namelen(t[i].id));
         if (full) {
@@ -326,7 +326,7 @@ run_case(DeviceManager* dm, const std::vector<Entry>& tab, Guarded& g, const Cas
             int same = 0;
             if (st == Device_Ok && c.kind >= 0 && (size_t)c.kind < tab.size())
                 same = same_ident(tab[(size_t)c.kind].id, out);
-            snprintf(b, sizeof(b), "{\"e\":\"Get\",\"id\":%ld,\"index\":%lld,\"status\":%d,\"same\":%d}", c.id, (long long)(uint32_t)c.kind, st, same);
+            snprintf(b, sizeof(b), "{\"e\":\"Get\",\"id\":%ld,\"index\":%lld,\"status\":%d,\"same\":%d}", c.id, (long long)((uint32_t)c.kind > 0x7fffffffu ? 0x7fffffffu : (uint32_t)c.kind), st, same);
             emit(b);
             break;
         }
